@@ -107,9 +107,9 @@ Stats explore(const Options& o, const Cfg& cfg, Reporter& rep, Agg& total)
                     int delay = 0;
                     if (seed.size() > 2 && seed[0] == '@')
                     {
-                        delay = atoi(seed.c_str() + 1);
+                        delay = std::min(atoi(seed.c_str() + 1), p.depth);  // never later than the last level of this schema
                         seed = seed.substr(seed.find(':') + 1);
-                        p.delayed[delay].push_back(seed);
+                        if (delay > 0) p.delayed[delay].push_back(seed);
                     }
                     t.items.push_back(seed);
                 }
